@@ -147,3 +147,98 @@ Theorem delegated_signature_verifies_under_published_key : forall (C : Type) cfg
   published cfg a j /\ j_claims j = cl.
 Proof. exact @sign_x_published. Qed.
 Print Assumptions delegated_signature_verifies_under_published_key.
+
+(* ---- the nonce of the MERGED authorization request (Model/C08Nonce.v, suite c08nonce) ---- *)
+From Verif Require Import C08Nonce C08NonceProofs.
+From Verif Require Jar Monitors C08NonceSys C08NonceMon.
+From Verif.Corr Require C08NonceCorr.
+
+(* A flow f: how the request travelled (plain / PAR / JAR / PAR carrying a request object), the INNER
+   parameters (pushed, or inside the signed object), the OUTER ones (the query of /authorize), the
+   profile.  effective_params is authnSession's choice, stated with the system model's merge function
+   (Authorize.merge_params): the query itself for a plain request; merge_params inner outer for PAR and
+   JAR under the OpenID profile; inner alone under the FAPI profiles.  For ALL parameter records,
+   profiles, artifact configurations, clients and token options: every ID token the flow delivers - in
+   its authorization response (plain parameters or a JARM response object) and in its token responses
+   (authorization_code and refresh_token grants) - carries as nonce claim exactly the nonce of the
+   effective parameters: present and equal when that is non-empty, absent when it is empty. *)
+Theorem nonce_echoed_merged : forall cfg n now c fo f,
+  (forall r i, flow_authz_response cfg n now c fo f = Some r -> authz_id_token r = Some i ->
+               idt_nonce i = opt_str (p_nonce (effective_params (fl_profile f) (fl_form f) (fl_inner f) (fl_outer f)))) /\
+  (forall gt r i, flow_token_response cfg n now c fo f gt = Some r -> trs_id_token r = Some i ->
+               idt_nonce i = opt_str (p_nonce (effective_params (fl_profile f) (fl_form f) (fl_inner f) (fl_outer f)))).
+Proof. exact C08NonceProofs.nonce_echoed_merged. Qed.
+Print Assumptions nonce_echoed_merged.
+
+(* the nonce of the effective parameters, as a rule on the two nonce values alone (what the monitor
+   of suite c08nonce and its Go-side oracle compute) *)
+Theorem merged_nonce_is_inner_else_outer : forall prof form i o,
+  p_nonce (effective_params prof form i o) = merged_nonce_rule prof form (p_nonce i) (p_nonce o).
+Proof. exact effective_nonce_rule. Qed.
+Print Assumptions merged_nonce_is_inner_else_outer.
+
+(* OpenID profile, PAR / JAR: a nonce that is missing inside is completed by the query's - the ID
+   tokens echo the OUTER nonce (the seeded regression of round 68 breaks exactly this) *)
+Theorem nonce_outer_completes : forall cfg n now c fo f i,
+  fl_profile f = POpenID -> fl_form f <> FPlain -> p_nonce (fl_inner f) = "" ->
+  id_token_of_flow cfg n now c fo f i -> idt_nonce i = opt_str (p_nonce (fl_outer f)).
+Proof. exact C08NonceProofs.nonce_outer_completes. Qed.
+Print Assumptions nonce_outer_completes.
+
+(* PAR / JAR, every profile: a nonce inside wins over whatever the query says *)
+Theorem nonce_inner_wins : forall cfg n now c fo f i,
+  fl_form f <> FPlain -> p_nonce (fl_inner f) <> "" ->
+  id_token_of_flow cfg n now c fo f i -> idt_nonce i = Some (p_nonce (fl_inner f)).
+Proof. exact C08NonceProofs.nonce_inner_wins. Qed.
+Print Assumptions nonce_inner_wins.
+
+(* FAPI profiles, PAR / JAR: only the inner nonce is ever echoed; the query's never leaks in *)
+Theorem nonce_fapi_inner_only : forall cfg n now c fo f i,
+  is_fapi (fl_profile f) = true -> fl_form f <> FPlain ->
+  id_token_of_flow cfg n now c fo f i -> idt_nonce i = opt_str (p_nonce (fl_inner f)).
+Proof. exact C08NonceProofs.nonce_fapi_inner_only. Qed.
+Print Assumptions nonce_fapi_inner_only.
+
+(* a plain request echoes its own nonce *)
+Theorem nonce_plain_request : forall cfg n now c fo f i,
+  fl_form f = FPlain -> id_token_of_flow cfg n now c fo f i -> idt_nonce i = opt_str (p_nonce (fl_outer f)).
+Proof. exact C08NonceProofs.nonce_plain_request. Qed.
+Print Assumptions nonce_plain_request.
+
+(* Links with the SYSTEM model.  JAR (Jar.jar_session = validateRequestWithJAR + authnSessionWithJAR):
+   whenever a request object is accepted, the session is built from exactly effective_params. *)
+Theorem jar_session_built_from_effective_params : forall cfg c outer jin j p,
+  Jar.jar_session cfg c outer jin j = inr p ->
+  p = effective_params (cf_profile cfg) FJar (Jar.jr_params j) outer.
+Proof. exact C08NonceSys.jar_session_effective. Qed.
+Print Assumptions jar_session_built_from_effective_params.
+
+(* PAR (Authorize.init_auth on a request_uri), for every store and request: when the authorization
+   starts (a page or a successful redirection), the pushed session s was found and every session the
+   store then holds under its id has a_params = effective_params profile FPar (pushed) (query) and, as
+   its nonce claim (AdditionalIDTokenClaims["nonce"]), the nonce of those merged parameters. *)
+Theorem par_session_carries_merged_nonce : forall w n now r st,
+  cf_par_enabled (w_cfg w) = true -> is_nil (p_request_uri (ar_params r)) = false ->
+  Monitors.started (snd (run_seq (init_auth w n now r) st)) = true ->
+  exists s, find (fun s => ideq (a_par s) (p_request_uri (ar_params r))) (st_asess st) = Some s /\
+            C08NonceSys.resaved (st_asess st) (st_asess (fst (run_seq (init_auth w n now r) st))) (a_id s)
+              (fun x => a_params x = effective_params (cf_profile (w_cfg w)) FPar (a_params s) (ar_params r) /\
+                        a_nonce_claim x = p_nonce (effective_params (cf_profile (w_cfg w)) FPar (a_params s) (ar_params r))).
+Proof. exact C08NonceSys.init_auth_par_nonce. Qed.
+Print Assumptions par_session_carries_merged_nonce.
+
+(* the monitor of suite c08nonce never alarms on ID tokens of the model's flow ... *)
+Theorem nonce_monitor_accepts_model : forall cfg n now c fo f l k,
+  (forall o, In o l -> exists site i, o = C08NonceCorr.obs_of site i /\ id_token_of_flow cfg n now c fo f i) ->
+  C08NonceCorr.first_bad_nonce k (merged_nonce_rule (fl_profile f) (fl_form f) (p_nonce (fl_inner f)) (p_nonce (fl_outer f))) l = 0.
+Proof. exact C08NonceMon.monitor_accepts_model. Qed.
+Print Assumptions nonce_monitor_accepts_model.
+
+(* ... and when it is silent, every observed ID token carries exactly the merged request's nonce *)
+Theorem nonce_monitor_silent_means_echo : forall prof form i o l k x,
+  C08NonceCorr.first_bad_nonce k (merged_nonce_rule prof form (p_nonce i) (p_nonce o)) l = 0 -> In x l ->
+  let e := p_nonce (effective_params prof form i o) in
+  if is_empty e then C08NonceCorr.no_present x = false
+  else C08NonceCorr.no_present x = true /\ C08NonceCorr.no_nonce x = e.
+Proof. exact C08NonceMon.monitor_silent_means_echo. Qed.
+Print Assumptions nonce_monitor_silent_means_echo.
